@@ -248,10 +248,13 @@ def build_ops():
                 if mid is not None:
                     # earlier activity IN THE SAME context that is unrelated because it failed: a rejected (or raising)
                     # check; the probe's expected verdict is decided from the bindings in force BEFORE it
-                    try:
-                        h["mid"] = "F" if mid() is False else "T"
-                    except AnnotationError:
-                        h["mid"] = "E"
+                    if isinstance(mid, tuple):      # ("call", thunk): a decorated call - its bindings die with it
+                        mid[1]()
+                    else:
+                        try:
+                            h["mid"] = "F" if mid() is False else "T"
+                        except AnnotationError:
+                            h["mid"] = "E"
                 h["res"] = R.verdict(lambda: R.matches(obj, ann))
                 h["post"] = R.observe_memo()[0]
             with jaxtyped("context"):      # a fresh context, so that the resulting bindings can be observed
@@ -286,6 +289,30 @@ def build_ops():
             "array_bind_then_raise": (bind_bv, lambda: isinstance(Z(2, 3), Float[np.ndarray, "a zz+1"])),
             "union_leaf_reject": (bind_bv, lambda: isinstance((Z(2), "s"), PyTree[typing_Union[Float[np.ndarray, "a"], int]])),
         }
+        # decorated calls whose BODY binds axes by manual checks: nothing of it survives the call - whatever the
+        # signature looks like (no parameter at all, no annotation at all, defaults only)
+        def _body():
+            assert isinstance(Z(9), Float[np.ndarray, "a"]) and isinstance(Z(5, 5), Float[np.ndarray, "*v"])
+
+        @jaxtyped(typechecker=beartype)
+        def call_noparams():
+            _body()
+
+        @jaxtyped(typechecker=typechecked)
+        def call_unannotated(x, y=3):
+            _body()
+
+        @jaxtyped(typechecker=beartype)
+        def call_defaults_only(x: int = 1, *args, **kwargs):
+            _body()
+
+        @jaxtyped(typechecker=None)
+        def call_nochecker():
+            _body()
+        mids.update({"call_noparams": (bind_bv, ("call", call_noparams)),
+                     "call_unannotated": (bind_bv, ("call", lambda: call_unannotated(1))),
+                     "call_defaults_only": (bind_bv, ("call", call_defaults_only)),
+                     "call_nochecker": (bind_bv, ("call", call_nochecker))})
         for mname, (pre_fn, mid) in mids.items():
             arr("mid_" + mname + ":v", Float[np.ndarray, "*v"], [v], Z(3, 1), {"inst": True, "dtin": True, "shape": [3, 1]},
                 pre=pre_fn, mid=mid)
